@@ -27,14 +27,21 @@ var VTT *testing.T
 func init() {
 	Props["C11T"] = RunC11T
 	Props["C09T"] = RunC09T
+	Props["C17T"] = RunC17T
 }
 
 // RunC09T: two loads overlap in (virtual) time on one store - one of them is given up by its caller
 // (deadline or fetch timeout) while blocks are still on their way, the other one has all the time it
 // needs and must rebuild exactly the log it was asked for, whatever the first one did.
-func RunC09T(r *Run) {
+func RunC09T(r *Run) { runOverlappingLoads(r, "C09") }
+
+// C17T: the same bubble under C17 - an identifier the library returned must load to the state it was returned
+// for, also while another load on the same store (and through the same codec object) is being given up.
+func RunC17T(r *Run) { runOverlappingLoads(r, "C17") }
+
+func runOverlappingLoads(r *Run, prop string) {
 	if VTT == nil {
-		r.Harness("C09T needs the virtual-time worker binary")
+		r.Harness(prop + "T needs the virtual-time worker binary")
 	}
 	w := BuildWorld(r, c09Profile())
 	w.ShareOpts = false // the two overlapping loads below are two callers: each has its own option values
@@ -103,11 +110,11 @@ func RunC09T(r *Run) {
 			r.Violate("fetch-termination", "overlapping loads never returned: %v", bubblePanic)
 		}
 		if errB != nil || lB == nil {
-			r.Violate("C09:load-error", "%s of a stored log failed while another load on the same store was given up: %v", loaderNames[spB.loader], errB)
+			r.Violate(prop+":load-error", "%s of a stored log failed while another load on the same store was given up: %v", loaderNames[spB.loader], errB)
 		}
 		_, strict := w.M.Linear(inB.set, w.ByHash)
 		if d := w.sameObs(w.observe(nb.Log), w.observe(lB), strict); d != "" {
-			r.Violate("C09:equal", "log rebuilt by %s while another load on the same store was given up differs from the original: %s", loaderNames[spB.loader], d)
+			r.Violate(prop+":equal", "log rebuilt by %s while another load on the same store was given up differs from the original: %s", loaderNames[spB.loader], d)
 		}
 	}
 	w.St.Delay = map[string]time.Duration{}
